@@ -32,3 +32,26 @@ def register(reg):
                              f'not out_ok(self.options[k], {FRESH}) and out_cut(self.options[k], {FRESH}) '
                              f'for k in range(0, len(self.options)))')]},
         propagates=[GROW])
+
+
+    # choice(): the block under `with ctx.choice() as ch:` registers the option functions; then they are tried in order and
+    # OptionSucceeded (the way a successful option ends the choice) is absorbed
+    X = 'tatsu/contexts/context.py'
+    XS, XOS = 'self.states.state_stack', 'old_self.states.state_stack'
+    XTOP = f'{XOS}[-1]'
+    XFRESH = f'spec_fresh({XTOP})'
+    contract(reg, 'CHOICEBODY', ['C02', 'C05'], {'f': 'func:CHOICEBODY', 'ctx': 'Ctx', 'ch': 'ChoiceCtx'}, ret='Val', generic=True, wf=False,
+             modifies=['ch.options', 'ch.expected'], ensures=['ch.options == uf_body_options(f)'],
+             note='the generated block under `with ctx.choice() as ch`: only registers option functions and expected tokens')
+    OPT = 'uf_body_options(body)'
+    xtried = f'all(not out_ok({OPT}[j], {XFRESH}) and not out_cut({OPT}[j], {XFRESH}) for j in range(0, {{n}}))'
+    contract(
+        reg, f'{X}:ParseContext.choice', ['C02', 'C05'], {'self': 'Ctx'}, ret='None', requires=[f'len({XS}) >= 1'], ghost={'body': 'func:CHOICEBODY'},
+        ensures=[('property',
+                  f'(len({OPT}) == 0 and {XS} == {XOS}) or any(({xtried.replace("{n}", "k")}) and out_ok({OPT}[k], {XFRESH}) and '
+                  f'{XS} == {XOS}[:-1] + [spec_merged({XTOP}, out_frame({OPT}[k], {XFRESH}))] for k in range(0, len({OPT})))')],
+        raises={'FailedParse': [('property', f'{XS} == {XOS}'),
+                                ('property',
+                                 f'({xtried.replace("{n}", f"len({OPT})")}) or any(({xtried.replace("{n}", "k")}) and '
+                                 f'not out_ok({OPT}[k], {XFRESH}) and out_cut({OPT}[k], {XFRESH}) for k in range(0, len({OPT})))')]},
+        propagates=[f'grown({XS}, {XOS})'])
